@@ -136,3 +136,27 @@ mod thread_ids {
         (ids.len() - 1) as u32
     }
 }
+
+// ---------------------------------------------------------------------------
+// Sections whose panics are caught and turned into data by the caller
+// ---------------------------------------------------------------------------
+
+static QUIET: std::sync::atomic::AtomicUsize = std::sync::atomic::AtomicUsize::new(0);
+
+/// Runs `f`; panic hooks consult `in_quiet_section()` and stay silent for panics
+/// raised inside (the caller catches them and reports them as data).
+pub fn quietly<R>(f: impl FnOnce() -> R) -> R {
+    struct Leave;
+    impl Drop for Leave {
+        fn drop(&mut self) {
+            QUIET.fetch_sub(1, SeqCst);
+        }
+    }
+    QUIET.fetch_add(1, SeqCst);
+    let _leave = Leave;
+    f()
+}
+
+pub fn in_quiet_section() -> bool {
+    QUIET.load(SeqCst) > 0
+}
